@@ -2,7 +2,7 @@
 # tools/run_sweep_tail.sh -- helper for a running sweep: two more slots (4, 5) work through the
 # property groups from the END of the list; process_mutants.sh skips whatever is already done.
 cd /verif || exit 2
-R2="C18 C16 C12 C11 C09 C07 C04 C03 C02 C01"
+R2="C18 C16 C12 C11 C10 C09 C07 C06 C04 C03 C02 C01"
 R1="C20 C19 C18 C17 C16 C13 C12 C11 C10 C09 C08 C07 C06 C05 C04 C03 C02 C01"
 ( for p in $R2; do tools/process_mutants.sh -r -s 4 -w 5 $p; done; for p in $R1; do tools/process_mutants.sh -s 4 -w 5 $p; done ) > /tmp/sweep_slot4.log 2>&1 &
 ( for p in $R1; do tools/process_mutants.sh -s 5 -w 5 $p; done; for p in $R2; do tools/process_mutants.sh -r -s 5 -w 5 $p; done ) > /tmp/sweep_slot5.log 2>&1 &
